@@ -662,6 +662,21 @@ def family_conn2(tier='quick'):
                            ('s2', one, False, 'A'), ('t2a', opt, False, 'A'), ('t2b', opt, False, 'A')],
                     conn_choices=[('K1', ['s0'], ['t0a', 't0b'], []), ('K2', ['s1'], ['t1a', 't1b'], []),
                                   ('K3', ['s2'], ['t2a', 't2b'], [])], label='conn3-middle-conditional'))
+    # two connection problems of one graph that look alike: same shapes and degrees, they differ only in WHICH pair is
+    # excluded / in whether parallel connections are allowed (everything the library memoises per connection problem,
+    # in memory or on disk, has to tell them apart)
+    out.append(Desc(['A'], [], ['A'],
+                    conns=[('a0', opt, False, 'A'), ('a1', opt, False, 'A'), ('b0', opt, False, 'A'), ('b1', opt, False, 'A'),
+                           ('c0', opt, False, 'A'), ('c1', opt, False, 'A'), ('d0', opt, False, 'A'), ('d1', opt, False, 'A')],
+                    conn_choices=[('K1', ['a0', 'a1'], ['b0', 'b1'], [('a0', 'b0')]),
+                                  ('K2', ['c0', 'c1'], ['d0', 'd1'], [('c0', 'd1')])],
+                    label='conn2-lookalike-excluded-pair'))
+    anyn = ('min', 0)
+    out.append(Desc(['A'], [], ['A'],
+                    conns=[('a0', anyn, True, 'A'), ('b0', anyn, True, 'A'), ('b1', anyn, True, 'A'),
+                           ('c0', anyn, False, 'A'), ('d0', anyn, False, 'A'), ('d1', anyn, False, 'A')],
+                    conn_choices=[('K1', ['a0'], ['b0', 'b1'], []), ('K2', ['c0'], ['d0', 'd1'], [])],
+                    label='conn2-lookalike-repeat-flag'))
     return out
 
 
